@@ -1475,7 +1475,7 @@ class RTCSctpTransport(AsyncIOEventEmitter):
         if state == self.State.ESTABLISHED:
             self.__state = "connected"
             for channel in list(self._data_channels.values()):
-                if channel.negotiated and channel.readyState != "open":
+                if channel.negotiated and channel.readyState == "connecting":
                     channel._setReadyState("open")
             asyncio.ensure_future(self._data_channel_flush())
         elif state == self.State.CLOSED:
@@ -1876,7 +1876,8 @@ class RTCSctpTransport(AsyncIOEventEmitter):
                         "x Ignoring DATA_CHANNEL_ACK for unknown stream %d", stream_id
                     )
                     return
-                channel._setReadyState("open")
+                if channel.readyState == "connecting":
+                    channel._setReadyState("open")
         elif pp_id == WEBRTC_STRING and stream_id in self._data_channels:
             try:
                 text = data.decode("utf8")
